@@ -231,6 +231,9 @@ def make_programs(pid, tier, rng):
             big = len(S) > 1000
             if big and not thorough and pid not in ("C01", "C02", "C06", "C07", "C15"):
                 continue
+            # (in the thorough tier the big sets are used everywhere, with a handful of queries per section: an iterator
+            # over thousands of results is thousands of validated events of a state that holds thousands of strings)
+            lim = (6 if big else 200) if thorough else 24
             rich = thorough or (pid == "C12")
             grid = G.param_grid(kind, S, rich and (small or thorough))
             if not thorough and pid != "C12":
@@ -261,8 +264,8 @@ def make_programs(pid, tier, rng):
                     if sc:
                         progs += obj_programs(pid, kind, par, name, S, "substr", lambda h, its: G.sec_substr(h, S, its, rng, lim))
                 elif pid == "C13":
-                    def fn(h, its, kind=kind, par=par, S=S, sc=sc):
-                        o = G.sec_table(h, S, its) if kind != "XBW" else []
+                    def fn(h, its, kind=kind, par=par, S=S, sc=sc, big=big):
+                        o = G.sec_table(h, S, its) if kind != "XBW" and not big else []
                         if kind in G.PREFIX:
                             o += G.sec_prefix(h, S, its, rng, 6)
                         if sc:
